@@ -1108,8 +1108,9 @@ class RGraph:
                 if parent_component_bump.to_rbuild is not None:
                     prev_rbuild = parent_component_bump.to_rbuild
                     from_rbuilds[prev_rbuild.iid] = prev_rbuild
-                else:
-                    from_rbuilds.update(parent_component_bump.from_rbuilds)
+                # component builds shipped by still earlier builds of this repo
+                # remain shipped even if the latest version does not contain them
+                from_rbuilds.update(parent_component_bump.from_rbuilds)
 
             if cur_component_rbuild is None and from_rbuilds:
                 # quite unusual situation: current commit references missing version
